@@ -17,6 +17,8 @@ OPENERS = {'open', 'io.open', 'os.fdopen', 'codecs.open', 'io.TextIOWrapper'}
 TRIAGE = {
     ('core.letter_id_generator.letter_id_to_number', 'AssertionError'):
         ('the only caller (_parse_generation_matcher via _parse_obj_id_matcher) passes a non-empty suffix of ASCII letters selected by _is_letter', 'c14'),
+    ('core.matcher._parse_generation_matcher', 'AssertionError'):
+        ('the only caller passes text[i:] under i < len(text) after the backwards _is_letter loop: a non-empty run of characters the letter test accepts', 'c14gen'),
     ('core.letter_id_generator.number_to_letter_id', 'AssertionError'):
         ('value >= 0: generations are list indices (C02.2), connection ordinals start at 0 and only grow (C04.3)', None),
     ('core.matcher._find_closing_brace', 'KeyError'):
@@ -98,14 +100,17 @@ def run(ctx):
     ok14 = callers == ['_parse_generation_matcher'] and gen_calls == ['_parse_obj_id_matcher']
     shape14 = ok14      # the call structure the condition is stated over; when it is gone the clause is undecided, not violated
     if ok14:
-        ok14 = False
+        seen14 = []
         for p in paths_of(repo, f_poi, while_unroll=1):
             for e in p.events:
                 if e.kind == 'call' and e.ftext == '_parse_generation_matcher':
                     a0 = e.argtext(0) or ''
                     lt = [v for a, v in p.decisions if re.match(r'^.+ < len\(text\)$', a.text)]
                     nonempty = [v for a, v in p.decisions if a.text == a0]          # `if suffix:` on the very slice passed
-                    ok14 = ((bool(lt) and lt[-1]) or (bool(nonempty) and nonempty[-1])) and bool(re.match(r'^text\[.+:\]$|^.*\.(match|fullmatch)\(.*text\)\.(group\(2\)|groups\(\)\[1\])$', a0))
+                    seen14.append(bool(((bool(lt) and lt[-1]) or (bool(nonempty) and nonempty[-1])) and bool(re.match(r'^text\[.+:\]$|^.*\.(match|fullmatch)\(.*text\)\.(group\(2\)|groups\(\)\[1\])$', a0))))
+        ok14 = bool(seen14) and all(seen14)
+        if seen14 and not all(seen14) and any(seen14):
+            shape14 = False     # the letters also reach the decoder in a way the condition does not speak about (a new spelling): undecided, not refuted
     if ok14:
         # the cut is placed before the maximal run of trailing letters, and only ASCII letters count as letters
         from .c14 import letter_cut
@@ -113,11 +118,52 @@ def run(ctx):
         cut = letter_cut(repo)
         ok14 = all(chr(ch).isascii() and chr(ch).isalpha() for ch in cut['accepted'])      # whatever is cut off as letters consists of ASCII letters
     cond['c14'] = ok14 if shape14 else None
+    # c14gen: an assertion inside _parse_generation_matcher that only re-states what c14 establishes about its argument - non-empty, and
+    # every character accepted by the letter test of the cut (hence an ASCII letter)
+    f_pgm = repo.try_func('matcher._parse_generation_matcher')
+    cond['c14gen'] = None
+    if f_pgm is not None and cond['c14'] is not None:
+        par_g = f_pgm.params()[0] if f_pgm.params() else None
+        asserts_g = [n for n in f_pgm.body_nodes() if isinstance(n, ast.Assert)]
+
+        def restates(e):
+            if isinstance(e, ast.BoolOp) and isinstance(e.op, ast.And):
+                return all(restates(v) for v in e.values)
+            t = norm(e)
+            if common.str_given(t, par_g) is True or t in ('%s.isalpha()' % par_g, '%s.isascii()' % par_g, "%s != ''" % par_g, 'isinstance(%s, str)' % par_g):
+                return True
+            m = re.match(r'^all\(\(?(\w+)\((\w+)\) for \2 in %s\)?\)$' % re.escape(par_g), t)
+            if m:
+                r_ = repo.lookup(f_pgm.module, m.group(1))
+                return bool(r_) and r_[0] == 'func' and r_[1].name == '_is_letter'
+            return False
+        rebinds = [n for n in f_pgm.body_nodes() if isinstance(n, ast.Name) and n.id == par_g and isinstance(n.ctx, ast.Store)]
+        if par_g and asserts_g and not rebinds and all(restates(a.test) for a in asserts_g):
+            cond['c14gen'] = cond['c14']
     f_so = repo.func('matcher._split_on')
     # decided on the paths of _split_on (two characters deep): every call of _find_closing_brace(T, K) happens after the decision
     # `T[K] in _brace_pairs` was taken as true on that path - with that very text and position
     from .common import effective_funcs as _eff_b
-    okb = all(g.short == '_split_on' for f, n in named_call_sites(repo, '_find_closing_brace') for g in _eff_b(repo, f))
+    okb = True
+    brace_keys = None
+    r_bp = repo.lookup(f_so.module, '_brace_pairs')
+    if r_bp and r_bp[0] == 'var' and isinstance(r_bp[1], ast.Dict) and all(isinstance(k_, ast.Constant) for k_ in r_bp[1].keys):
+        brace_keys = {k_.value for k_ in r_bp[1].keys}
+    for f_b, n_b in named_call_sites(repo, '_find_closing_brace'):
+        if all(g.short == '_split_on' for g in _eff_b(repo, f_b)):
+            continue
+        # a call from elsewhere: safe when the position is where the text was just found to have one of the opening characters -
+        # K = T.index('<c>') with <c> a key of the table; anything else the condition does not speak about (undecided)
+        safe_b = False
+        if isinstance(n_b, ast.Call) and len(n_b.args) >= 2 and isinstance(n_b.args[1], ast.Name) and brace_keys:
+            defs_b = [x for x in f_b.body_nodes() if isinstance(x, ast.Assign) and len(x.targets) == 1 and isinstance(x.targets[0], ast.Name) and x.targets[0].id == n_b.args[1].id]
+            stores_b = [x for x in f_b.body_nodes() if isinstance(x, ast.Name) and x.id == n_b.args[1].id and isinstance(x.ctx, ast.Store)]
+            if len(defs_b) == 1 and len(stores_b) == 1:
+                v_b = defs_b[0].value
+                safe_b = isinstance(v_b, ast.Call) and isinstance(v_b.func, ast.Attribute) and v_b.func.attr == 'index' and norm(v_b.func.value) == norm(n_b.args[0]) \
+                    and len(v_b.args) == 1 and isinstance(v_b.args[0], ast.Constant) and v_b.args[0].value in brace_keys
+        if not safe_b:
+            okb = None
     if okb:
         ncall_b = 0
         from .common import paths_for_input as _pfi
@@ -165,10 +211,34 @@ def run(ctx):
             ctx.violation(rule, 'escape:%s:%s' % (rs.func.qual, rs.exc), rs.func.loc(rs.node),
                           '%s (%s) can escape %s; its triage condition no longer holds: %s' % (rs.exc, rs.text[:60], root.short, reason))
             return
+        if rs.kind == 'assert':
+            why_ = common.assert_cannot_fail_on_paths(repo, rs.func, rs.node)
+            if why_ is not None:
+                ctx.ok(rule, rs.func.loc(rs.node), 'assert-holds:%s:%s' % (rs.func.qual, rs.text[:60]), 'the assertion cannot fail: ' + why_)
+                return
+            # an assertion the tables do not know and whose truth is not visible in its own function (flow.locally_discharged).  When it speaks
+            # about nothing but the parameters of a function the pinned tree already had, it narrows what that function accepts while every
+            # caller still passes what it passed before (for the command handlers: whatever the user typed) - reported.  When it speaks about
+            # values computed inside the function, the author states an invariant the analysis can neither confirm nor refute - undecided
+            # (reported once the run found no violation elsewhere).
+            from ..sim import is_new_function as _isnew
+            names_ = {x.id for x in ast.walk(rs.node.test) if isinstance(x, ast.Name)}
+            attrs_ = [x for x in ast.walk(rs.node.test) if isinstance(x, ast.Attribute)]
+            params_ = set(rs.func.params())
+            bound_ = {x.id for x in rs.func.body_nodes() if isinstance(x, ast.Name) and isinstance(x.ctx, ast.Store)}
+            if not _isnew(rs.func) and names_ & params_ and not (names_ & bound_) and not any(isinstance(a_.value, ast.Name) and a_.value.id in ('self', 'cls') for a_ in attrs_):
+                ctx.violation(rule, 'escape:%s:%s' % (rs.func.qual, rs.exc), rs.func.loc(rs.node),
+                              'the new assertion `%s` narrows what %s accepts, nothing shows that its callers respect it: AssertionError can escape %s unhandled'
+                              % (rs.text[:60], rs.func.short, root.short))
+                return
+            common.unproved_assert(ctx, rule, rs, root)
+            return
         ch = ex.chain(root, rs)
         ctx.violation(rule, 'escape:%s:%s' % (rs.func.qual, rs.exc), rs.func.loc(rs.node),
                       '%s raised by `%s` in %s can escape %s unhandled' % (rs.exc, rs.text[:60], rs.func.short, root.short), {'chain': [g.short for g in ch] if ch else None})
 
+    for f_, n_, e_, why_ in ex.discharged:
+        ctx.ok('C18.6' if e_ == 'KeyError' else 'C18.5', f_.loc(n_), 'locally-safe:%s:%s' % (f_.qual, norm(n_)[:60]), '%s cannot be raised here: %s' % (e_, why_))
     # ---- C18.2 --------------------------------------------------------------------------------------------------
     f_parse = repo.func('matcher.parse')
     seen = set()
